@@ -460,6 +460,27 @@ func (ww *WW) StepMelt() {
 	_ = err
 }
 
+// StepRemelt: the wallet calls Melt again on a quote it already used (still pending, failed, or
+// paid): a retry must never put a second set of proofs at risk for one payment.
+func (ww *WW) StepRemelt() {
+	w := ww.pickWallet()
+	qs := ww.PendQ[w]
+	if len(qs) == 0 {
+		ww.StepMelt()
+		return
+	}
+	qid := qs[ww.T.Choose("remelt.q", len(qs))]
+	ww.op("w.remelt")
+	state := "error"
+	ww.W.WalletOp(w, ww.name("remelt."+w), nil, func(wl *wallet.Wallet) {
+		r, e := wl.Melt(qid)
+		if e == nil {
+			state = r.State.String()
+		}
+	})
+	ww.rc.S.Probe("w_remelt_" + state)
+}
+
 // StepResolveMelt: an in-flight payment reaches its outcome; the wallet checks its quote.
 func (ww *WW) StepResolveMelt() {
 	keys := ww.W.LN.InflightKeys()
